@@ -671,6 +671,20 @@ let check_q (x : qobs) input =
 
 let finish_groups () = bump ~by:(Hashtbl.length pending) "groups.unpaired"
 
+(* ---------- C16: a token's type fits its text ---------- *)
+let symbol_text : (int * string) list =
+  List.map (fun (r, ty) -> (typnum ty, String.make 1 (Char.chr (int_of_n r)))) symbols @ [ (typnum TMinus, "-") ]
+let token_type_fits (ty : int) (v : string) : bool =
+  match List.assoc_opt ty symbol_text with
+  | Some s -> v = s
+  | None ->
+    let up = String.uppercase_ascii v in
+    if ty = typnum TAnd then up = "AND" else if ty = typnum TOr then up = "OR" else if ty = typnum TNot then up = "NOT" else if ty = typnum TTO then up = "TO"
+    else if ty = typnum TQuoted then String.length v >= 2 && (v.[0] = '"' || v.[0] = '\'') && v.[String.length v - 1] = v.[0]
+    else if ty = typnum TRegexp then String.length v >= 2 && v.[0] = '/' && v.[String.length v - 1] = '/'
+    else if ty = typnum TLiteral then v <> "" && not (List.mem up [ "AND"; "OR"; "NOT"; "TO" ])
+    else true
+
 (* ---------- C16 on lexer scripts ---------- *)
 let check_l (inp : string) (script : string) (obs : string) input =
   if is_bad obs then fail "C16" "lexer-panics-or-hangs" input [("observed", obs)] else begin
@@ -681,6 +695,8 @@ let check_l (inp : string) (script : string) (obs : string) input =
     match String.split_on_char ':' (String.sub s 1 (String.length s - 1)) with
     | [n; h] -> (c, int_of_string n, unhexs h) | _ -> failwith "lex item" in
   let items = List.map parse_item items in
+  List.iter (fun (_, ty, v) -> if ty <> terr_num && ty <> teof_num && not (token_type_fits ty v) then
+    fail "C16" "token-type-does-not-fit-its-text" input [("observed", obs); ("token", v)]) items;
   (* segmentation over the Next calls *)
   let n = String.length inp in
   let pos = ref 0 and ended = ref false and ok = ref true and nexts = ref 0 in
